@@ -280,6 +280,11 @@ pub struct StatesInner {
 #[derive(Clone)]
 pub struct States(pub Arc<StatesInner>);
 
+/// the table of the running case (for helpers that are not handed one)
+static CURRENT_STATES: std::sync::Mutex<Option<States>> = std::sync::Mutex::new(None);
+/// scheduler key on which actors wait for state changes of other actors
+const STATES_KEY: usize = 0x5354;
+
 impl States {
     /// `desc[i]` is "role/ctx" of actor i; `opname` renders an op code
     pub fn install(desc: Vec<String>, opname: fn(u8) -> &'static str) -> States {
@@ -304,13 +309,38 @@ impl States {
             fp.dedup();
             (fp.join(","), txt.join("; "))
         }));
+        *CURRENT_STATES.lock().unwrap() = Some(s.clone());
         s
+    }
+    pub fn current() -> Option<States> {
+        CURRENT_STATES.lock().unwrap().clone()
+    }
+    /// has the actor entered (or already left) its op `idx`, or ended?
+    pub fn reached(&self, actor: usize, idx: usize) -> bool {
+        let v = self.0.st[actor].load(Ordering::SeqCst);
+        v & 0xff == 2 || (v >> 16) as usize > idx || ((v >> 16) as usize == idx && v & 0xff == 1)
+    }
+    /// block the calling OS thread (virtually) until `actor` has entered op `idx`; gives up
+    /// after 5 virtual seconds. in coroutine context this polls with sleeps instead
+    pub fn wait_reached(&self, actor: usize, idx: usize) {
+        if actor >= self.0.st.len() {
+            return;
+        }
+        if may::coroutine::is_coroutine() {
+            poll_until(|| self.reached(actor, idx), 5_000_000_000);
+            return;
+        }
+        let give_up = sched::now_ns() + 5_000_000_000;
+        while !self.reached(actor, idx) && sched::now_ns() < give_up {
+            sched::block(STATES_KEY, Some(give_up), false);
+        }
     }
     pub fn enter(&self, actor: usize, idx: usize, op: u8) {
         // harness boundary: what the actor did before is visible to everybody (the harness'
         // own bookkeeping is not subject to store buffering)
         crate::sched::flush_own();
         self.0.st[actor].store(((idx as u64) << 16) | ((op as u64) << 8) | 1, Ordering::SeqCst);
+        sched::notify(STATES_KEY);
     }
     pub fn leave(&self, actor: usize, idx: usize) {
         crate::sched::flush_own();
@@ -318,6 +348,7 @@ impl States {
     }
     pub fn done(&self, actor: usize) {
         self.0.st[actor].store(2, Ordering::SeqCst);
+        sched::notify(STATES_KEY);
     }
 }
 
